@@ -47,6 +47,53 @@ def api_call(rng):
     return rng.choice([f"cell_to_parent,{c},none", f"cell_to_children,{c},none", f"get_resolution,{c}", f"compact,{c}", f"u64_to_hex,{c}"])
 
 
+def related_calls(rng, call):
+    """calls that differ from `call` in exactly one component of its arguments (another face, another quintant, one curve digit,
+    one resolution level, a nudged coordinate, another option): a stale cache keyed by a subset of the arguments shows up when
+    such a call precedes the real one"""
+    t = call.split(",")
+    op = t[0]
+    out = []
+    if op in ("cell_to_lonlat", "cell_to_boundary", "contains"):
+        c = int(t[1])
+        res, T, dg = spec.decode(c)
+        alts = []
+        if res >= 1:
+            f, k = divmod(T, 5)
+            alts.append(spec.encode(res, 5 * ((f + rng.randint(1, 11)) % 12) + k, dg))          # same quintant code + digits, other face
+            alts.append(spec.encode(res, 5 * f + (k + rng.randint(1, 4)) % 5, dg))              # other quintant
+            for f2 in range(12):                                                                 # same reported segment on every other face
+                if f2 != f and rng.random() < 0.4:
+                    alts.append(spec.encode(res, 5 * f2 + rng.randrange(5), dg))
+        elif res == 0:
+            alts.append(spec.encode(0, (T + rng.randint(1, 11)) % 12, ()))
+        if res >= 2:
+            i = rng.randrange(len(dg))
+            d2 = list(dg); d2[i] = (d2[i] + rng.randint(1, 3)) % 4
+            alts.append(spec.encode(res, T, tuple(d2)))
+            alts.append(spec.encode(res - 1, T, dg[:-1]))
+        if 1 <= res <= 28:
+            alts.append(spec.encode(res + 1, T, dg + (rng.randrange(4),)))
+        for a in alts:
+            out.append(",".join([op, str(a)] + t[2:]))
+        if op == "cell_to_boundary":
+            out.append(",".join([op, t[1], "1" if t[2] == "0" else "0", t[3]]))
+            out.append(",".join([op, t[1], t[2], "3" if t[3] != "3" else "none"]))
+        out.append(("cell_to_boundary," + t[1] + ",1,none") if op == "cell_to_lonlat" else ("cell_to_lonlat," + t[1]))
+    elif op == "lonlat_to_cell":
+        lon, lat, r = fxx(t[1]), fxx(t[2]), int(t[3])
+        out.append(f"lonlat_to_cell,{hx(lon)},{hx(lat)},{(r + 1) % 30}")
+        out.append(f"lonlat_to_cell,{hx(lon + 72.0)},{hx(lat)},{r}")
+        out.append(f"lonlat_to_cell,{hx(-lon)},{hx(-lat)},{r}")
+        out.append(f"lonlat_to_cell,{hx(lon + 1e-7)},{hx(lat)},{r}")
+    rng.shuffle(out)
+    return out
+
+
+def fxx(tok):
+    return struct.unpack("<d", struct.pack("<Q", int(tok[1:], 16)))[0]
+
+
 def split_hist(resp):
     """-> (list of per-call responses, bitmap string)"""
     if " | " not in resp:
@@ -86,6 +133,12 @@ def run(run):
         reqs.append("hist " + ";".join(pre + [c])); kinds.append("after-random")
     for c in api[: (20 if quick else 200)]:
         reqs.append("hist " + ";".join(fillall + [c])); kinds.append("after-fill")
+    for c in api:
+        rel = related_calls(rng, c)
+        if rel:
+            for r1 in rel[: (3 if quick else 8)]:
+                reqs.append("hist " + r1 + ";" + c); kinds.append("after-related")
+            reqs.append("hist " + ";".join(rel[:6] + [c])); kinds.append("after-related")
     impl, model = core.both(run, reqs, "histories", timeout=3600)
     if model[0] != "ok 1":
         run.tie_breaks.append(("model-eval", "memoSphTotalCheck (hypothesis SphTotal of C13.crs_quiet for the float parameters)", model[0]))
@@ -141,7 +194,7 @@ def run(run):
         if len(out) < len(conc):
             run.violation("concurrent run lost responses", f"threads {nthreads}", f"{len(out)} of {len(conc)}")
     run.rule = ("thread histories executed in fresh threads: random projection-call histories and fill-all-270-slots histories in random order followed by warm replays "
-                "(results and slot-fill bitmap compared with the Lean memo state machine), public API calls fresh vs after random prefixes vs after a fill-all prefix, "
+                "(results and slot-fill bitmap compared with the Lean memo state machine), public API calls fresh vs after random prefixes vs after a fill-all prefix vs directly after RELATED calls (same call with one argument component changed: other face / quintant / digit / level / option), "
                 "and the same calls spread over 8 (quick) / 2, 8, 16 threads with barriers; non-trivial = distinct histories / (kind, call) pairs compared")
     run.samples = [{"request": reqs[i][:300], "impl": impl[i][:300]} for i in rng.sample(range(1, len(reqs)), 5)]
     run.extra["spherical_slots_filled_cold"] = len(slots_cold)
